@@ -4,8 +4,15 @@
    file_image = what Save writes (version word ++ WriteFavrec), load = fav.Load on a file content,
    renumber = what ReadFavrec does to line ids, folder ids, LineID, FolderID and FavNum.
    wf_fav (Proofs/C19_rt.v): every field within its Go type (int8/int16/int32), titles 49 bytes, and on every
-   level 0 <= NBoards, NLines, NFolders and NBoards+NLines+NFolders = number of entries < 2^15. *)
-From Verif Require Import Base.Common Base.Fs Model.C19 Proofs.C19.
+   level 0 <= NBoards, NLines, NFolders and NBoards+NLines+NFolders = number of entries < 2^15.
+   Consistent trees (Proofs/C19_api.v): level_ok h its = on one level NBoards/NLines/NFolders are the numbers of boards,
+   lines and folders of its, LineID = NLines, FolderID = NFolders, the k-th line has Lid k, the k-th folder Fid k, fewer
+   than 128 lines, 128 folders, 2^15 entries. sok_item z = payloads within their Go types and level_ok in every nested
+   folder (z = true: and the FavNum cache of every nested folder is 0, which is what the API leaves there - only
+   ReadFavrec fills it). lvl z f = level_ok at the root and sok_item z on every entry; sok_fav z f = lvl z f and fewer
+   than 2^15 entries in the whole tree (total_items). fill_cache f = f with FavNum of the root and of every nested
+   folder set to the number of entries below it; zero_item = an entry with the FavNum of every nested folder reset to 0. *)
+From Verif Require Import Base.Common Base.Fs Gen.Consts_default Model.C19 Proofs.C19.
 
 (* for EVERY well-formed tree (any nesting depth, any number of entries within the counter ranges): the save does not
    crash and loading the written file returns the tree with ids and derived counters renumbered ... *)
@@ -20,10 +27,44 @@ Theorem C19_roundtrip_same_entries : forall f : fav, shape (renumber f) = shape 
 Proof. exact renumber_shape. Qed.
 Print Assumptions C19_roundtrip_same_entries.
 
-(* NOT proved here, validated by the check on every run (predicate "api-ids" and the correspondence of the Add* model):
-   trees built by NewFavRaw/AddBoard/AddLine/AddFolder are well-formed and renumber leaves their ids, LineID, FolderID
-   and the root FavNum unchanged (sub-folder FavNum is a cache that only the reader fills):
-     forall script, run_script script empty_fav 0 = Some (t, n) -> wf_fav t /\ strip_sub_favnum (renumber t) = strip_sub_favnum t. *)
+(* EVERY tree reachable from NewFavRaw by a script of API calls - AddBoard / AddLine / AddFolder on the folder at any
+   path (any depth), assignments to Attr / LastVisit / board Attr, in any order and number, the calls refused at the
+   limits (ErrTooManyLines at 64 lines, ErrTooManyFolders at 64 folders of a level, ErrTooManyFavs at 1024 entries,
+   ErrInvalidBid) included; run_script is the function the harness runs against ptt/fav - is well-formed, has
+   consistent counters and sequential ids on every level, Root.FavNum = number of entries <= MAX_FAV, and the reader's
+   renumbering changes nothing in it except that it fills the FavNum cache of the nested folders:
+   fst (renumber t) = fst t (all six root counters) and resetting those caches gives back exactly the entries of t. *)
+Theorem C19_api_trees_wellformed : forall (ops : list (list Z)) (t : fav) (n : Z),
+  run_script ops empty_fav 0 = Some (t, n) ->
+  wf_fav t /\ sok_fav true t /\ h_favnum (fst t) = total_items (snd t) /\ total_items (snd t) <= ptt_fav.MAX_FAV /\
+  renumber t = fill_cache t /\ fst (fill_cache t) = fst t /\ map zero_item (snd (fill_cache t)) = snd t.
+Proof. exact api_trees_wellformed. Qed.
+Print Assumptions C19_api_trees_wellformed.
+
+(* hence: writing such a tree and loading the file SUCCEEDS and returns the same entries in the same order with the same
+   payloads, Lid/Fid, and the same NBoards/NLines/NFolders/LineID/FolderID on every level and the same Root.FavNum
+   (t' equals t once the nested FavNum caches, 0 in t, are reset); and t' written and loaded again is t' exactly.
+   (The literal "renumber t = t" is false for an API-built tree with a non-empty nested folder, because of that cache:
+   C19_api_subfolder_cache_differs below.) *)
+Theorem C19_api_roundtrip_identity : forall (ops : list (list Z)) (t : fav) (n : Z),
+  run_script ops empty_fav 0 = Some (t, n) ->
+  exists img t', file_image t = Ok img /\ load img = ROk t' /\
+    fst t' = fst t /\ map zero_item (snd t') = snd t /\
+    exists img', file_image t' = Ok img' /\ load img' = ROk t'.
+Proof. exact api_roundtrip_identity. Qed.
+Print Assumptions C19_api_roundtrip_identity.
+
+Theorem C19_api_subfolder_cache_differs : exists ops t n,
+  run_script ops empty_fav 0 = Some (t, n) /\ renumber t <> t /\ renumber (renumber t) = renumber t.
+Proof. exact api_renumber_not_identity. Qed.
+Print Assumptions C19_api_subfolder_cache_differs.
+
+(* the same for every tree with consistent counters, however it was made (e.g. one that has been loaded): the round
+   trip only fills the FavNum caches, and a tree whose caches are filled is an exact fixed point of save/load *)
+Theorem C19_consistent_roundtrip : forall (z : bool) (f : fav), sok_fav z f ->
+  wf_fav f /\ renumber f = fill_cache f /\ wf_fav (fill_cache f) /\ renumber (fill_cache f) = fill_cache f.
+Proof. exact consistent_roundtrip. Qed.
+Print Assumptions C19_consistent_roundtrip.
 
 (* the bytes follow the pttbbs .fav format: version word, counts (int16, int8, int8), the entries of the level
    (type, attr, then 12-byte board = 9 packed + 3 zero | 1-byte line | fid + 49-byte title), then each folder's
